@@ -57,6 +57,9 @@ CHECKS = {
  "C11": ("exploration", "Go race detector (-race) over a seeded concurrent API mixer; reports parsed, classified library/harness and deduplicated by function pair; stuck detector for deadlock; recover()/child-crash detection for panics and fatal errors",
    "For every protocol connected to a peer over inproc/tcp/ipc (thorough: all six transports) 6-16 goroutines each issue 120 (250) calls from PRNG-chosen subsets of ~50 public API operations on the socket, its contexts, dialers, listeners and pipes, with library yield points on, then Close from two goroutines; configurations are repeated 8 (16) times because race reports vary. A race report with both accesses in library code, a panic or runtime fatal error, a non-terminating mixer (whole-process quiescence) or a result that is neither nil nor a documented error is a violation. The evidence lists how many distinct pairs of call kinds actually overlapped in time.",
    "Trusted: the race detector's happens-before model; a clean run says nothing about accesses that never overlapped. Harness-side races fail the run as a broken check.", "3/C11"),
+ "C17": ("exploration", "library-side message-ownership ledger (tag-guarded hook in message.go: poison + quarantine + reference-count checks at every Free/Clone/Dup/MakeUnique/NewMessage) combined with application-side retain / re-verify / scribble monitors",
+   "All patterns (fan-out: PUB, BUS, STAR, SURVEYOR; retained: REQ; pipelines) run over inproc/tcp/ipc (thorough: all six transports) with sizes around every pool class while the ledger watches every ownership operation inside the library: double release, use after release, writes into a released (poisoned, quarantined) buffer and NewMessage's post-condition are detected directly; receivers keep RecvMsg results in a window, re-verify header, body and reference count after later traffic and buffer reuse, then scribble over them and free them, so aliasing between siblings shows as a changed or poisoned body; a per-protocol send-outcome matrix over a vt peer checks that a failed SendMsg leaves the message (count 1, body intact) with the caller.",
+   "Trusted: the ledger hook (reads the message's own count atomically inside the call that changes it; no shadow state). Read-after-release is visible only through poison reaching delivered or transmitted bytes.", "3/C17"),
 }
 
 NOT_YET = {}
